@@ -700,6 +700,12 @@ theorem shapeDiagonal_len_le_cap (s : Shape) (off : Int) (a1 a2 : Nat) (r : Shap
   have := CapL.shapeDiagonal_length s off a1 a2 r hne h
   simp only [capDiagonal]; omega
 
+/-- known finding `diagonal.equal-axes`: the hypothesis `a1 ≠ a2` above is NOT checked by the code.  With both axes equal
+    `shape_diagonal` skips one axis only and writes `dim` entries into a container sized (and, bounded, capped) for `dim - 1`:
+    `view::diagonal(a(2,3), 0, 0, 0)` writes 2 entries where the bound of a rank-2 shape at full capacity allows 1 -/
+theorem shapeDiagonal_equal_axes_counterexample :
+    ∃ r, Index.shapeDiagonal [2,3] 0 0 0 = some r ∧ ¬ (r.length ≤ capDiagonal 2) := ⟨[3,2], by decide, by decide⟩
+
 /-- `index::shape_matmul` (view/matmul.hpp): at most `max(len a, len b)` entries into `static_vector<_, max(B_a, B_b)>` -/
 theorem shapeMatmul_len_le_cap (a b r : Shape) (bA bB : Nat) (h : shapeMatmul a b = some r)
     (ha : a.length ≤ bA) (hb : b.length ≤ bB) : r.length ≤ capMatmul bA bB := by
